@@ -444,3 +444,112 @@ func TestVerifKeys(t *testing.T) {
 			"frames": atomic.LoadInt64(&v.frames), "unheld": atomic.LoadInt64(&v.unheld), "overlap": atomic.LoadInt64(&v.overlap)})
 	}
 }
+
+/*
+	C20: every hook configuration from TLC (Gen_Hook) x every link the hook world offers
+	(body links, attachments with media types, post media, profile picture, banner - with
+	spaces, quotes, leading dashes, $(), backticks and text that looks like a placeholder).
+*/
+func verifHookWorld(w *verifWorld) (postURL string, actorURL string) {
+	u := w.h.URL
+	hrefs := []string{u("/plain"), u("/with space"), "--leading-dash", "$(touch /tmp/verif-pwned)", "`id`", "%url", "%mimetype",
+		"'single' \"double\"", u("/a?b=c&d=%25e#frag"), "; rm -rf /tmp/x", "a\\b", "%subtype/%url", "-", "ünïcödé ☃"}
+	content := "<p>"
+	for i, h := range hrefs {
+		content += fmt.Sprintf(`<a href="%s">link%d</a> `, strings.NewReplacer("&", "&amp;", `"`, "&quot;").Replace(h), i)
+	}
+	content += "</p>"
+	w.put("/notes/hk", map[string]any{"type": "Video", "name": "hk", "attributedTo": u("/users/carol"), "published": "2024-01-01T00:00:00Z",
+		"content": content,
+		"url": []any{map[string]any{"type": "Link", "href": u("/media/big file.mp4"), "mediaType": "video/mp4", "width": 10, "height": 10},
+			map[string]any{"type": "Link", "href": u("/media/page.html"), "mediaType": "text/html"}},
+		"attachment": []any{
+			map[string]any{"type": "Link", "href": u("/att/one two.png"), "mediaType": "image/png", "name": "first"},
+			map[string]any{"type": "Document", "url": u("/att/doc?x=$(id)"), "mediaType": "%subtype/%url", "name": "second"},
+			map[string]any{"type": "Image", "url": u("/att/noType"), "name": "third"},
+			map[string]any{"type": "Link", "href": u("/att/weird"), "mediaType": "x-%url/%mimetype+%supertype", "name": "fourth"}}})
+	w.put("/users/carol", map[string]any{"type": "Person", "name": "carol", "preferredUsername": "carol",
+		"icon": map[string]any{"type": "Image", "url": u("/media/carol icon.png"), "mediaType": "image/png"},
+		"image": []any{map[string]any{"type": "Image", "url": u("/media/banner-$(x).jpg")}, map[string]any{"type": "Link", "href": u("/media/small.gif"), "mediaType": "image/gif", "width": 1, "height": 1}}})
+	return u("/notes/hk"), u("/users/carol")
+}
+
+func TestVerifHook(t *testing.T) {
+	var in struct {
+		Hooks [][]string `json:"hooks"`
+	}
+	verifkit.In(&in)
+	w, out := verifSetup(t)
+	defer out.Close()
+	defer w.sim.Cleanup()
+	postURL, actorURL := verifHookWorld(w)
+	sid := 0
+	for _, args := range in.Hooks {
+		hook := append([]string{os.Args[0], "--verif-hook"}, args...)
+		config.Parsed.Media.Hook = hook
+		for _, page := range []string{postURL, actorURL} {
+			sid++
+			v := verifNewSession(w, out, sid, false)
+			if err := v.s.Subcommand("open", page); err != nil || !v.settle(8*time.Second) {
+				out.Emit(verifkit.M{"ev": "hook", "hook": hook, "link": "", "mt": verifkit.M{"essence": "", "supertype": "", "subtype": ""}, "calls": []verifkit.M{}, "panic": true, "what": "page did not load"})
+				continue
+			}
+			v.hookCalls()
+			item := v.s.h.Current().feed.Current()
+			type probe struct {
+				keys string
+				link string
+				mt   verifkit.M
+				ok   bool
+			}
+			probes := []probe{}
+			mtOf := func(link string, essence, super, sub string, present bool) probe {
+				return probe{link: link, mt: verifkit.M{"essence": essence, "supertype": super, "subtype": sub}, ok: present}
+			}
+			if post, isPost := item.(*pub.Post); isPost {
+				for k := 1; k <= 40; k++ {
+					link, mt, present := post.SelectLink(k)
+					if !present {
+						break
+					}
+					p := mtOf(link, mt.Essence, mt.Supertype, mt.Subtype, true)
+					p.keys = fmt.Sprintf("%d\r", k)
+					probes = append(probes, p)
+				}
+				if link, mt, present := post.Media(); present {
+					p := mtOf(link, mt.Essence, mt.Supertype, mt.Subtype, true)
+					p.keys = "o"
+					probes = append(probes, p)
+				}
+			}
+			if actor, isActor := item.(*pub.Actor); isActor {
+				if link, mt, present := actor.ProfilePic(); present {
+					p := mtOf(link, mt.Essence, mt.Supertype, mt.Subtype, true)
+					p.keys = "p"
+					probes = append(probes, p)
+				}
+				if link, mt, present := actor.Banner(); present {
+					p := mtOf(link, mt.Essence, mt.Supertype, mt.Subtype, true)
+					p.keys = "b"
+					probes = append(probes, p)
+				}
+			}
+			for _, p := range probes {
+				panicked, what, wedged := v.press(p.keys, []byte(p.keys))
+				calls := []verifkit.M{}
+				for _, c := range v.hookCalls() {
+					argv := append([]string{os.Args[0], "--verif-hook"}, c["argv"].([]string)...)
+					calls = append(calls, verifkit.M{"argv": argv, "stdin": c["stdin"]})
+				}
+				ev := verifkit.M{"ev": "hook", "hook": hook, "link": p.link, "mt": p.mt, "calls": calls, "keys": p.keys, "panic": panicked || wedged}
+				if panicked {
+					ev["what"] = what
+				}
+				out.Emit(ev)
+				if panicked || wedged {
+					break
+				}
+			}
+		}
+	}
+}
